@@ -15,28 +15,49 @@ def decode (tok : String) : String := (parseStr tok).getD tok
 def childRecs (d : Dump) (kind parent : String) : List Rec :=
   d.filter fun r => r.kind == kind && parentPath r.path == parent && r.path != parent
 
-def secForest (d : Dump) : Nat → String → List Sec
+/-- where the links of the forest come from: the accepted operations of the history (Drive/State `SearchSt`) for the
+    entities the tracker followed, the dump's getters for the rest -/
+structure Links where
+  md : Rec → String           -- section id or "~"
+  link : Rec → String
+  srcs : Rec → List String
+
+def isAlive (d : Dump) (kind id : String) : Bool := d.any fun r => r.kind == kind && r.id == id
+
+def linksOf (h : SearchSt) (d : Dump) : Links :=
+  let single (tab : List (String × Option String)) (field : String) (r : Rec) : String :=
+    if h.untracked.contains r.id then r.field field else
+    match tab.find? (·.1 == r.id) with
+    | some (_, some t) => if isAlive d "S" t then t else "~"     -- deleting a section removes every link to it
+    | _ => "~"
+  { md := single h.md "meta", link := single h.seclink "link",
+    srcs := fun r =>
+      if h.untracked.contains r.id then (parseList (r.field "srcs")).getD [] else
+      match h.srcs.find? (·.1 == r.id) with
+      | some (_, l) => l.filter (isAlive d "O")
+      | none => [] }
+
+def secForest (lk : Links) (d : Dump) : Nat → String → List Sec
   | 0, _ => []
   | fuel + 1, parent => (childRecs d "S" parent).map fun r =>
-      .node { id := r.id, name := decode r.name, type := decode r.type, link := optId (r.field "link"),
+      .node { id := r.id, name := decode r.name, type := decode r.type, link := optId (lk.link r),
               props := (childRecs d "P" r.path).map fun p => { id := p.id, name := decode p.name } }
-            (secForest d fuel r.path)
+            (secForest lk d fuel r.path)
 
-def srcForest (d : Dump) : Nat → String → List Src
+def srcForest (lk : Links) (d : Dump) : Nat → String → List Src
   | 0, _ => []
   | fuel + 1, parent => (childRecs d "O" parent).map fun r =>
-      .node { id := r.id, name := decode r.name, type := decode r.type, md := optId (r.field "meta") } (srcForest d fuel r.path)
+      .node { id := r.id, name := decode r.name, type := decode r.type, md := optId (lk.md r) } (srcForest lk d fuel r.path)
 
-def holders (d : Dump) (kind parent : String) : List Holder :=
-  (childRecs d kind parent).map fun r =>
-    { id := r.id, md := optId (r.field "meta"), srcs := (parseList (r.field "srcs")).getD [] }
+def holders (lk : Links) (d : Dump) (kind parent : String) : List Holder :=
+  (childRecs d kind parent).map fun r => { id := r.id, md := optId (lk.md r), srcs := lk.srcs r }
 
-def worldOf (d : Dump) : World :=
+def worldOf (lk : Links) (d : Dump) : World :=
   let fuel := d.length + 1
-  { sections := secForest d fuel "",
+  { sections := secForest lk d fuel "",
     blocks := (d.filter fun r => r.kind == "B").map fun b =>
-      { id := b.id, md := optId (b.field "meta"), das := holders d "A" b.path, tags := holders d "T" b.path,
-        mtags := holders d "M" b.path, sources := srcForest d fuel b.path } }
+      { id := b.id, md := optId (lk.md b), das := holders lk d "A" b.path, tags := holders lk d "T" b.path,
+        mtags := holders lk d "M" b.path, sources := srcForest lk d fuel b.path } }
 
 mutual
 /-- the node with the given id and the chain of nodes above it, nearest first -/
@@ -110,6 +131,44 @@ def verdict (tag : String) (model : List String) (impl : List String) (ordered :
 
 def uninit : List String := ["err", "UninitializedEntity"]
 
+/-- follow the link operations the implementation ACCEPTED (called for every trace line before the handlers) -/
+def observe (ds : DState) (op : String) (args impl : List String) : DState :=
+  let ok := impl.head? == some "ok"
+  let h := ds.search
+  let setTab (tab : List (String × Option String)) (k : String) (v : Option String) := (k, v) :: tab.filter (·.1 != k)
+  match op, args with
+  | "fopen", mode :: _ => if mode == "ow" && ok then { ds with search := {} } else ds
+  | "single", [f, holder, how, key] =>
+    if !ok || (f != "metadata" && f != "seclink") then ds else
+    match slotId ds.store holder with
+    | none => ds
+    | some hid =>
+      let tgt : Option (Option String) := match how with
+        | "none" => some none
+        | "handle" | "idof" => (slotId ds.store key).map some
+        | "id" => (parseStr key).map some
+        | _ => none
+      match tgt with
+      | none => { ds with search := { h with untracked := hid :: h.untracked } }
+      | some t => if f == "metadata" then { ds with search := { h with md := setTab h.md hid t } }
+                  else { ds with search := { h with seclink := setTab h.seclink hid t } }
+  | "link", ["src", holder, how, key] | "unlink", ["src", holder, how, key] =>
+    if !ok then ds else
+    match slotId ds.store holder with
+    | none => ds
+    | some hid =>
+      let sid : Option String := match how with
+        | "handle" | "idof" => slotId ds.store key
+        | "id" => parseStr key
+        | _ => none
+      match sid with
+      | none => { ds with search := { h with untracked := hid :: h.untracked } }
+      | some s =>
+        let cur := ((h.srcs.find? (·.1 == hid)).map (·.2)).getD []
+        let new := if op == "link" then (if cur.contains s then cur else cur ++ [s]) else cur.filter (· != s)
+        { ds with search := { h with srcs := (hid, new) :: h.srcs.filter (·.1 != hid) } }
+  | _, _ => ds
+
 def handle (ds : DState) (op : String) (args impl : List String) : Option (DState × Out) :=
   if !op.startsWith "sr_" then none else
   let st := ds.store
@@ -119,7 +178,8 @@ def handle (ds : DState) (op : String) (args impl : List String) : Option (DStat
   | some d =>
   if !st.sinceDump.isEmpty then fin (.malformed "search query after a mutation without a fresh dump") else
   if d.any (fun r => r.id.startsWith "!") then fin (.malformed "dump with failed getters") else
-  let w := worldOf d
+  let lk := linksOf ds.search d
+  let w := worldOf lk d
   let recOfSlot (kind slot : String) : Option Rec := (slotId st slot).bind (C20.Rel.recOfId d kind)
   match op, args with
   | "sr_findsec", [start, fk, fa, dep] =>
@@ -215,7 +275,7 @@ def handle (ds : DState) (op : String) (args impl : List String) : Option (DStat
           | "secO", none => (secReferringSources w r.id).map (·.val.id)
           | "secO", some b => (secReferringSourcesIn w r.id b).map (·.val.id)
           | _, _ => (secReferringBlocks w r.id).map (·.id)
-        let exp := if nullBlock then [] else C20.Rel.metaHolders d hk r.id blockRec
+        let exp := if nullBlock then [] else C20.Rel.metaHolders d lk.md hk r.id blockRec
         fin (verdict s!"sr_referring.{kind}.{if nullBlock then "nullblock" else if blockRec.isSome then "block" else "file"}" (okIds m) impl false fun ans =>
           C20.Rel.asSet "referring_entities_are_exactly_those_whose_metadata_is_the_section" ans exp)
     else
@@ -230,7 +290,7 @@ def handle (ds : DState) (op : String) (args impl : List String) : Option (DStat
             | "srcT" => (srcReferringTags b r.id).map (·.id)
             | _ => (srcReferringMultiTags b r.id).map (·.id)
           fin (verdict s!"sr_referring.{kind}" (okIds m) impl false fun ans =>
-            C20.Rel.asSet "referring_entities_are_exactly_those_that_list_the_source" ans (C20.Rel.srcHolders d hk r))
+            C20.Rel.asSet "referring_entities_are_exactly_those_that_list_the_source" ans (C20.Rel.srcHolders d lk.srcs hk r))
   | "sr_parentsrc", [slot] =>
     if slot == "$-" then fin (cmp "sr_parentsrc.null" uninit impl) else
     match recOfSlot "O" slot with
@@ -252,9 +312,9 @@ def handle (ds : DState) (op : String) (args impl : List String) : Option (DStat
       | none => fin (.malformed "sr_inherited: section not in the forest")
       | some (t, _) =>
         let m := (inheritedProperties w t.val).map (·.id)
-        let exp := C20.Rel.inherited d r
+        let exp := C20.Rel.inherited d lk.link r
         let own := C20.Rel.propsOf d r
-        let tag := s!"sr_inherited.{if t.val.link.isNone then "nolink" else if exp.length == own.length + ((C20.Rel.recOfId d "S" (r.field "link")).map (fun l => (C20.Rel.propsOf d l).length) |>.getD 0) then "noshadow" else "shadow"}"
+        let tag := s!"sr_inherited.{if t.val.link.isNone then "nolink" else if exp.length == own.length + ((C20.Rel.recOfId d "S" (lk.link r)).map (fun l => (C20.Rel.propsOf d l).length) |>.getD 0) then "noshadow" else "shadow"}"
         fin (verdict tag (okIds m) impl false fun ans =>
           C20.Rel.asSet "inherited_are_own_plus_unshadowed_linked_properties" ans exp)
   | _, _ => fin (.malformed s!"{op} arity")
